@@ -1429,7 +1429,8 @@ public:
     }
     void tstb(SttMod a, Imm16 b) {
         u16 value = RegToBus16(a.GetName());
-        regs.fz = (value >> b.Unsigned16()) & 1;
+        // only the low 4 bits of the second word select the bit (decoder.h: unused12@20)
+        regs.fz = (value >> (b.Unsigned16() & 0xF)) & 1;
     }
 
     void and_(Ab a, Ab b, Ax c) {
